@@ -64,6 +64,7 @@ def run(W, chk):
         chk.expect(den == {"Store(POSITIONS).lp_asset.denom"}, "PROV-penalty-recipient", "denom:%s" % sorted(to), "paid in the position's LP denom", "penalty denom %s" % sorted(den), where(e))
         o2 = ops_of(e.extra["dargs"][1])
         chk.expect("div_ceil" not in o2, "ROUND-penalty", "share:%s" % sorted(to), "round-down only", "penalty share ops %s" % sorted(o2), where(e))
+    uniq_owners(chk, A)
     # total < amount cuts all penalty messages
     lt = PredTrue("total_penalty_fee < amount", lambda pn, pa: pn == "lt" and origin_match(pa[1], r"^Store\(POSITIONS\)\.lp_asset\.amount$") and
                   "Store(CONFIG).emergency_unlock_penalty" in all_origins(pa[0]))
@@ -107,3 +108,15 @@ def run(W, chk):
         ok = all(o in m2 and {"sat", "sub"} <= m2[o] for o in all_origins(tot) if not o.startswith("Const("))
         chk.expect(ok and "Store(POSITIONS).lp_asset.amount" in m2, "PROV-owner-payout", "withdraw", "owner receives amount - total_penalty_fee (same total)",
                    "owner payout does not subtract the total penalty: %s" % sorted(m2)[:8], where(sends[0]))
+
+
+def uniq_owners(chk, A):
+    """the per-owner share is total/len(owners): owners paid must be the same de-duplicated collection"""
+    loops = [e for e in A.calls(r"IntoIterator.*::into_iter$") if e.fn.endswith("withdraw_position")
+             and exact_origins(vfield(e.extra["dargs"][0], "[*]")) == {"Store(FARMS).owner"}]
+    lens = [e for e in A.calls(r"Vec::<.*>::len$") if e.fn.endswith("withdraw_position")
+            and all_origins(vfield(e.extra["dargs"][0], "[*]")) <= {"Store(FARMS).owner", "Store(FARMS)"} and all_origins(vfield(e.extra["dargs"][0], "[*]"))]
+    ok = bool(loops) and all("#uniq" in e.extra["dargs"][0].fields for e in loops) and bool(lens) and all("#uniq" in e.extra["dargs"][0].fields for e in lens)
+    chk.expect(ok, "UNIQ-penalty-owners", "withdraw_position", "owner share = commission / |distinct owners| and exactly the distinct owners are paid",
+               "penalty shares are paid over a collection that is not the de-duplicated owner set (loops over owners: %d, divisor from set: %s): "
+               "an owner of two farms is paid twice and the payout exceeds the position" % (len(loops), bool(lens)), where(loops[0]) if loops else A.entry)
